@@ -237,7 +237,7 @@ pub fn scenarios(tier: Tier) -> Vec<Scenario> {
         // delay profiles: per-node in/out speeds
         let masks: Vec<u32> = match tier {
             Tier::Quick => vec![0b1, 0b10, 0b1010, 0b1111_1111],
-            Tier::Thorough => (1..(1u32 << (2 * n))).step_by(if n == 4 { 1 } else { 11 }).collect(),
+            Tier::Thorough => (1..(1u32 << (2 * n))).step_by(match n { 4 => 3, 5 => 41, _ => 67 }).collect(),
         };
         // (delays strictly below DELTA = 250 ms: at exactly DELTA a block's last shred and the
         // slot's timeout fall on the same instant and the outcome is a same-instant tie)
@@ -264,7 +264,7 @@ pub fn scenarios(tier: Tier) -> Vec<Scenario> {
 /// The cluster systems (real node cores + one Byzantine validator) explored by C02-A; C05 runs the
 /// same systems with its own-vote monitors.
 pub fn liveness_systems() -> Vec<crate::cluster::ClusterSys> {
-    use crate::cluster::{ClusterAlphabet, ClusterSys, LiveSys, PrefixOp};
+    use crate::cluster::{ClusterAlphabet, ClusterSys, PrefixOp};
     use crate::common::make_epoch;
     use crate::engine::{BfsLimits, bfs};
     use crate::pooldrv::{Blk, CK, VK, VoteSpec};
@@ -496,6 +496,45 @@ pub fn run(tier: Tier) -> i32 {
     });
     let mut all_samples = live_traces;
     all_samples.extend(samples.into_inner().unwrap().items);
+    // ---- Byzantine previous leader at the hand-over (n = 5, attacker 19 %): the next, correct
+    // leader starts optimistically on a block the others never notarize and must switch parents
+    let mut handover_runs = Vec::new();
+    use crate::c10::Handover;
+    // second stake vector: the next leader alone is below 20 %, so a block only it holds can never
+    // be certified through fallback votes and the parent switch is the only way forward
+    let handover_jobs: Vec<(Handover, Vec<u64>)> = [vec![21u64, 20, 20, 19, 20], vec![22, 21, 21, 18, 18]]
+        .into_iter()
+        .flat_map(|st| [Handover::Equivocate, Handover::OnlyNextLeader, Handover::LastTwoOnlyNextLeader].into_iter().map(move |v| (v, st.clone())))
+        .collect();
+    let handover_results: Vec<(Handover, Vec<u64>, Result<crate::c10::Outcome, String>)> = handover_jobs.into_par_iter().map(|(v, st)| { let r = crate::c10::run_handover(v, &st); (v, st, r) }).collect();
+    for (variant, stakes, result) in handover_results {
+        evals.fetch_add(1, std::sync::atomic::Ordering::Relaxed);
+        let replay = json!({"scenario": "byzantine-previous-leader-at-handover", "variant": format!("{variant:?}"), "stakes": stakes, "attacker": 3, "next_leader": 4});
+        let variant = format!("{variant:?}:next-leader-{}pct", stakes[4]);
+        match result {
+            Err(p) => report.violation(format!("C02:simulation-panicked:handover-{variant}"), p, replay),
+            Ok(o) => {
+                let w: Vec<(u64, (bool, bool, bool, bool))> = (16..=19u64).map(|s| (s, o.certs.get(&s).copied().unwrap_or_default())).collect();
+                handover_runs.push(json!({"variant": variant, "stakes": stakes, "finalized": o.finalized, "window_16_19_certs_ff_final_skip_notar": w}));
+                if !o.panics.is_empty() {
+                    report.violation(format!("C02:node-task-panicked:handover-{variant}"), format!("{:.200}", o.panics[0]), replay.clone());
+                }
+                for (s, c) in &w {
+                    if c.2 || !(c.0 || c.1) {
+                        report.violation(
+                            format!("C02:correct-leader-block-{}:handover-{variant}", if c.2 { "skipped" } else { "not-finalized" }),
+                            format!("slot {s} of the correct leader that follows a Byzantine leader ({variant} in the last slots of its window): certificates (fast-final, final, skip, notar) = {c:?}; finalized {:?}", o.finalized),
+                            replay.clone(),
+                        );
+                        break;
+                    }
+                }
+                if o.finalized.iter().flatten().any(|f| *f < 24) {
+                    report.violation(format!("C02:no-progress:handover-{variant}"), format!("finalized slots after 16 s: {:?}", o.finalized), replay);
+                }
+            }
+        }
+    }
     let cov = json!({
         "states": live_states,
         "transitions": live_transitions,
@@ -510,6 +549,7 @@ pub fn run(tier: Tier) -> i32 {
         "virtual_ms_per_run": total_ms,
         "inconclusive": *inconclusive.lock().unwrap(),
         "liveness_from_explored_prefixes": live,
+        "byzantine_previous_leader_handover_runs": handover_runs,
         "liveness_rule": "every state reached by the breadth-first exploration of schedule prefixes of 3 real node cores (real Votor + Pool each; Byzantine votes to single nodes, adversary-aggregated certificates, per-link FIFO deliveries incl. loop-back in every interleaving, blocks to single nodes, timeouts) is rebuilt and completed fairly (everything in flight delivered, held blocks repaired to the others, timeouts fired when nothing is in flight, Byzantine validator silent); on the completed world every slot of the window must be certified (skip or notarization/-fallback) or finalized at every node and the next window must have a ready parent",
         "samples": all_samples,
     });
